@@ -39,9 +39,22 @@ def suite():
     rc, out = sh("cargo nextest run --workspace --no-fail-fast --tool-config-file pb:/w/lib/nextest.toml "
                  "--profile pb --test-threads 8 --offline 2>&1 | tail -40", cwd=WT)
     m = re.search(r"(\d+) tests run: (\d+) passed(?: \((\d+) \w+\))?(?:, (\d+) failed)?", out)
-    failed = re.findall(r"^\s+(?:FAIL|TIMEOUT|SIGABRT|SIGSEGV)\s.*$", out, re.M)
-    return {"summary": m.group(0) if m else out[-400:], "run": int(m.group(1)) if m else 0,
-            "passed": int(m.group(2)) if m else 0, "failed": failed[:10]}
+    failed = sorted(set(re.findall(r"^\s+(?:FAIL|TIMEOUT|SIGABRT|SIGSEGV)\s+\[[^\]]*\]\s+(?:\(\S+\)\s+)?(\S+)\s+(\S+)\s*$", out, re.M)))
+    res = {"summary": m.group(0) if m else out[-400:], "run": int(m.group(1)) if m else 0,
+           "passed": int(m.group(2)) if m else 0, "failed_first_run": [f"{c} {t}" for c, t in failed][:20], "still_failing": []}
+    # the machine is shared and loaded: tests that fail or time out in the full run are run
+    # again on their own (twice at most) before they count as broken by the change
+    for crate, test in failed[:20]:
+        ok = False
+        for _ in range(2):
+            rc, o = sh(f"cargo nextest run -p {crate} --offline --no-fail-fast --test-threads 2 -E 'test(={test})' 2>&1 | tail -5", cwd=WT)
+            if re.search(r"1 passed", o) and not re.search(r"failed|timed out", o):
+                ok = True
+                break
+        if not ok:
+            res["still_failing"].append(f"{crate} {test}")
+    res["ok"] = bool(res["run"] >= 1800 and not res["still_failing"] and (res["passed"] + len(failed)) >= res["run"])
+    return res
 
 
 def main():
@@ -82,7 +95,7 @@ def main():
                 fails_with = any(int(f) > 0 for x in res["demo_with_patch"] for (_, _, f) in x["results"])
                 clean_without = all(int(f) == 0 for x in res["demo_without_patch"] for (_, _, f) in x["results"]) and any(
                     int(p) > 0 for x in res["demo_without_patch"] for (_, p, _) in x["results"])
-                res["confirmed"] = bool(s["run"] >= 1800 and s["passed"] == s["run"] and fails_with and clean_without)
+                res["confirmed"] = bool(s["ok"] and fails_with and clean_without)
         json.dump(res, open(os.path.join(d, "confirm.json"), "w"), indent=1)
         print(sid, "CONFIRMED" if res.get("confirmed") else "NOT CONFIRMED", json.dumps(res.get("existing_tests_with_patch", res.get("error")))[:200], flush=True)
     reset()
